@@ -1350,6 +1350,19 @@ func (i valueImporter) importDictionaryValue(
 		if err != nil {
 			return nil, err
 		}
+
+		// The key is hashed when the dictionary is constructed below,
+		// i.e. before the imported value is validated as a whole:
+		// ensure it is hashable and well-formed (e.g. an enum with a raw value) first.
+		if _, ok := key.(interpreter.HashableValue); !ok ||
+			!key.ConformsToStaticType(inter, interpreter.TypeConformanceResults{}) {
+
+			return nil, errors.NewDefaultUserError(
+				"cannot import dictionary: invalid key: %s",
+				pair.Key,
+			)
+		}
+
 		keysAndValues[pairIndex*2] = key
 
 		value, err := i.importValue(pair.Value, valueType)
